@@ -750,7 +750,7 @@ def reduces(variant, ops):
     k = NEED[variant]
     lines, told = old_top(variant)
     lines += ["let Tb = %s;" % told, "let ms = term.0@.last();", "CHECK(non_term@ =~= R);",
-              "assert(T0.drop_last().drop_last() =~= T0.take(T0.len() - 2));" if k == 2 else "", "CHECK(term.0@ =~= Tb.push(ms));",
+              "assert(T0%s =~= T0.take(T0.len() - %d));" % (".drop_last()" * k, k), "CHECK(term.0@ =~= Tb.push(ms));",
               "lemma_fill%s(R, Tb, 1, ms);" % G, "reveal_with_fuel(weave, 5);"]
     lines += consumed(ops)
     lines.append("CHECK(toks(ms) =~= %s + weave%s(parts(top), 0, T0, %d, 0));" % (ats(ops), G, k) if ops else
@@ -838,7 +838,7 @@ def expression_leaf(path, sub, variant="Expression"):
     cons = [a for a in ats_ if a is not None]
     C = "seq![%s]" % ", ".join(reversed(cons))
     nts = [re.sub(r"\s+", " ", x) for x in re.findall(r"non_term\.push\((NonTerm::\w+(?:\s*\{[^}]*\})?)\)", sub)]
-    has_term = re.search(r"(?<![\w])term\.push\(", sub) is not None
+    has_term = re.search(r"(?<![\w])term\.(?:0\.)?push\(|(?<![\w])term\.reduce0\(", sub) is not None
     L = ["reveal_with_fuel(abs_seq, %d);" % (len(path) + 1),
          "CHECK(tokens.0@ =~= rem0%s);" % (".drop_last()" * len(cons)),
          "CHECK(abs_seq(rem0) =~= abs_seq(tokens.0@) + %s);" % C]
@@ -1306,14 +1306,14 @@ impl vstd::std_specs::cmp::PartialEqSpecImpl for Token {
         vf.fn(DECODE, "impl:TerminalStack<Pk, Ctx>/fn:push", qual="TerminalStack", props=("C04", "C11"), contract=Contract(ensures=[
             Clause("push", ("C04",), "final(self).0@ == old(self).0@.push(ms)")]))
         vf.fn(DECODE, "impl:TerminalStack<Pk, Ctx>/fn:reduce0", qual="TerminalStack", props=("C04", "C11"), contract=Contract(ensures=[
-            Clause("reduce0", ("C04",), "r is Ok ==> final(self).0@.len() == old(self).0@.len() + 1 && final(self).0@.drop_last() == old(self).0@ && final(self).0@.last().node == ms")]))
+            Clause("reduce0", ("C04",), "r is Ok ==> final(self).0@ == old(self).0@.push(final(self).0@.last()) && final(self).0@.len() == old(self).0@.len() + 1 && final(self).0@.drop_last() == old(self).0@ && final(self).0@.last().node == ms")]))
         vf.fn(DECODE, "impl:TerminalStack<Pk, Ctx>/fn:reduce1", qual="TerminalStack", props=("C04", "C11"),
               contract=Contract(requires=["old(self).0@.len() >= 1", "forall|a: %s| wrap.requires((a,))" % A], ensures=[
-                  Clause("reduce1", ("C04",), "r is Ok ==> final(self).0@.len() == old(self).0@.len() && final(self).0@.drop_last() == old(self).0@.drop_last() "
+                  Clause("reduce1", ("C04",), "r is Ok ==> final(self).0@ == old(self).0@.drop_last().push(final(self).0@.last()) && final(self).0@.len() == old(self).0@.len() && final(self).0@.drop_last() == old(self).0@.drop_last() "
                          "&& exists|a: %s| *a == old(self).0@.last() && wrap.ensures((a,), final(self).0@.last().node)" % A)]))
         vf.fn(DECODE, "impl:TerminalStack<Pk, Ctx>/fn:reduce2", qual="TerminalStack", props=("C04", "C11"),
               contract=Contract(requires=["old(self).0@.len() >= 2", "forall|a: %s, b: %s| wrap.requires((a, b))" % (A, A)], ensures=[
-                  Clause("reduce2", ("C04",), "r is Ok ==> final(self).0@.len() == old(self).0@.len() - 1 && final(self).0@.drop_last() == old(self).0@.drop_last().drop_last() "
+                  Clause("reduce2", ("C04",), "r is Ok ==> final(self).0@ == old(self).0@.drop_last().drop_last().push(final(self).0@.last()) && final(self).0@.len() == old(self).0@.len() - 1 && final(self).0@.drop_last() == old(self).0@.drop_last().drop_last() "
                          "&& exists|a: %s, b: %s| *a == old(self).0@.last() && *b == old(self).0@.drop_last().last() && wrap.ensures((a, b), final(self).0@.last().node)" % (A, A))]))
     vf.fn(DECODE, "fn:is_and_v", props=("C04", "C11"), rewrites=[sub("R3", r"Some\(&Tk::", "Some(Tk::")],
           contract=Contract(ensures=[Clause("pure", ("C04",), "final(tokens).0@ == old(tokens).0@")]))
